@@ -19,7 +19,7 @@ EXPLANATION = (
     'constraint names. Counterexamples are replayed on real PuLP + CBC.')
 ASSUMPTIONS = BASE_ASSUMPTIONS + [
     'well-formed instance: 0 <= lower <= upper per project, 0 <= lower <= target <= upper per lecturer',
-    'multipliers are concrete inside quantified obligations (grid {0..3}); cut-offs enumerated within 1..max rank (greedy also above)']
+    'multipliers: concrete grid {0..3} in the general tasks, plus dedicated tasks where the multipliers of mincost/minsqcost and the student multiplier of mincostlsb are symbolic integers >= 0 (a symbolic lecturer multiplier of mincostlsb multiplies integer variables: nonlinear, z3 does not decide it in reach); cut-offs enumerated within 1..max rank (greedy also above)']
 LEVEL_TEXT = ('Bounded SMT verification of the real code: exists-forall queries show that no well-formed quota vector makes a feasible '
               'instance infeasible (or erroring) at any solve of the run, and QF queries show Optimal implies feasible; shapes bounded.')
 LEVEL_NOTE = ('Trusted: z3 (quantified linear integer arithmetic), the PuLP stand-in, vf/spec.py. Outside the claim: CBC and its MPS '
@@ -54,6 +54,11 @@ def tasks(tier, seed):
                 forms = ['noexc', 'feas'] + (['valid'] if len(s) <= 1 else [])
                 out.append({'prop': ID, 'shape': lpchecks.shape_data(I), 'flags': flags, 'seq': s,
                             'forms': forms, 'wf': True})
+            # multipliers of the cost criteria as SYMBOLIC integers >= 0 (bound adequacy for all multipliers)
+            for s in ([('mincost', ['sym', 'sym'])], [('minsqcost', ['sym', 'sym'])], [('mincostlsb', ['sym', 2])],
+                      [('maxsize', []), ('mincost', ['sym', 'sym'])], [('mincostlsb', ['sym', 1]), ('minsqcost', ['sym', 'sym'])]):
+                out.append({'prop': ID, 'shape': lpchecks.shape_data(I), 'flags': flags, 'seq': s,
+                            'forms': ['noexc', 'feas', 'valid'], 'wf': True, 'symmult': True})
     # translation validation of the PuLP stand-in + end-to-end text oracle on real PuLP objects (E1)
     ntv = 120 if tier == 'quick' else 1200
     for i in range(ntv):
